@@ -36,6 +36,22 @@ CHECKS = {
              "the traced unsynchronised fields listed in the evidence, not "
              "arbitrary bytecodes; the peer is sim/peer.py; 1-2 application "
              "threads."),
+    'C15': dict(
+        category='model_checking', design='2/C15',
+        technique="stateless schedule exploration (preemption bounded) of the "
+                  "real frontend code with a recording driver proxy",
+        text="Two (thorough: also three) threads each run one public "
+             "ContactlessFrontend entry point (open, close, sense, listen, "
+             "exchange, size queries, connect rdwr/llcp/card, context exit) on "
+             "a recording driver proxy; every schedule with <= 2 (thorough 3) "
+             "preemptions is executed and every driver call must be made by "
+             "the owner of clf.lock, must not overlap another driver call and "
+             "must not reach a closed driver.  The evidence lists which of the "
+             "syntactic self.device call sites were reached.",
+        note="Scheduling points: lock acquisition, sleeps and a point inside "
+             "every driver method; 2-3 threads; the proxy driver answers like "
+             "a Type 2 tag / FeliCa reader so that connect() runs through "
+             "activation, presence check and release."),
 }
 
 NOT_YET = "check not built yet in this round (see DESIGN.md section 2 for the planned design)"
